@@ -235,6 +235,18 @@ func C12() *sim.Check {
 		t := c.T
 		o := gen.PSOpts{MaxTokens: 70, DSC: t.Bool(1, 2), Errors: 6, MaxAlloc: 100, Hostile: false}
 		p := gen.GenPS(t, o)
+		if t.Choose(5) == 0 {
+			// a CMap resource file is a program too: cut it at line ends (its
+			// hex strings and comments never span lines)
+			file := gen.GenCMapFile(t, 1+t.Choose(2))
+			p = &gen.PSProg{Src: file}
+			for i, b := range file {
+				if b == '\n' && i+1 < len(file) {
+					p.Gaps = append(p.Gaps, i+1)
+				}
+			}
+			c.St.Inc("multicall_cmap_files")
+		}
 		if p.HasFiles || p.HasStop || len(p.Gaps) == 0 {
 			c.St.Inc("multicall_not_applicable")
 			return nil
